@@ -361,7 +361,20 @@ private theorem e3_ok : e3.Ok table := by
     Kind.isVarName, Kind.isIdent]
   decide
 private theorem stops_semi : Stops table 0 [semi] := stops_afterExpr table_stmt_wellformed 0 semi [] rfl
+private theorem va_ok : va.Ok table := by simp [va, Expr.Ok, nm, Kind.isVarName]
+private theorem vb_ok : vb.Ok table := by simp [vb, Expr.Ok, nm, Kind.isVarName]
+private theorem n3_ok : n3.Ok table := by simp [n3, Expr.Ok]
+private theorem e2_ok : e2.Ok table := by simp [e2, Expr.Ok, va, vb, n3, lt, nm, Kind.isVarName]; decide
 -- the theorems APPLIED (every hypothesis discharged for a concrete tree)
+-- left_assoc: `(a + b) * 3 - b + 3` with the compound left operand `e1`;  tighter_binds: `a + (a + b) * 3 * 3`;
+-- unary_binds_tightest: `not ((a + b) * 3) == b`;  paren_kept_as_operand: `a * (a < (b < 3))` and `(a < (b < 3)) * a`
+example := left_assoc table table_wellformed e1 vb n3 minus plus 4 (by decide) (by decide) e1_ok vb_ok n3_ok [semi] stops_semi
+example := tighter_binds table table_wellformed va e1 n3 plus times 4 5 .left .left (by decide) (by decide) (by decide)
+  va_ok e1_ok n3_ok [semi] stops_semi
+example := unary_binds_tightest table table_wellformed e1 vb knot eqeq 3 .nonassoc (by decide) (by decide) e1_ok vb_ok
+  [semi] stops_semi
+example := paren_kept_as_operand table table_wellformed e2 va times 5 .left (by decide) e2_ok va_ok [semi] stops_semi
+example := prec_roundtrip_fuel table table_wellformed e3 e3_ok 0 [semi] stops_semi 1000 (by decide)
 example : parseExprTop table (render table e3 0 ++ [semi]) = some (e3, [semi]) :=
   prec_roundtrip table table_wellformed e3 e3_ok [semi] stops_semi
 example : parseExprTop table (renderFull e1 ++ [semi]) = some (e1, [semi]) :=
@@ -486,7 +499,8 @@ example : Pyx.OalText.LexemesOk kwprog := by decide +kernel
 private def tprog : Block :=
   .cons (.assign false (.var (nm "x")) (.bin va plus (.bin vb times (.bin (.var (nm "c")) minus (.int "1"))))) .nil
 private def tunits : List Pyx.OalLex.LexUnit := (Pyx.OalText.unitsOf (printStmts table tprog)).getD []
-example : parseStmts table (Pyx.OalLex.toParserToks (Pyx.OalLex.lex "x=a+b*(c-1);".toList)) = some tprog := by
+private theorem tprog_text :
+    parseStmts table (Pyx.OalLex.toParserToks (Pyx.OalLex.lex "x=a+b*(c-1);".toList)) = some tprog := by
   have hok : tprog.Ok table := by
     simp [tprog, Block.Ok, Stmt.Ok, Expr.Ok, va, vb, plus, times, minus, Expr.isVarAccess, nm, Kind.isVarName]
     decide
@@ -503,9 +517,12 @@ example : parseStmts table (Pyx.OalLex.toParserToks (Pyx.OalLex.lex "x=a+b*(c-1)
     (Pyx.OalText.pairOkB_sound _ hp)
   rw [ht] at this
   exact this
+-- driver_text_parser applied: what the driver computes on `x=a+b*(c-1);` is the tree
+example : Pyx.OalText.parseText "x=a+b*(c-1);".toList = some tprog := by rw [driver_text_parser]; exact tprog_text
 -- driver_domain_sound: `x = a/*c*/+b ;// d\n` is in the domain (comment glued to both neighbours, tight `+`)
-example : Pyx.OalText.inDomain [nm "x", tk .EQUAL "=", nm "a", plus, nm "b", semi] []
+private theorem dom_example : Pyx.OalText.inDomain [nm "x", tk .EQUAL "=", nm "a", plus, nm "b", semi] []
     [" ".toList, " ".toList, "/*c*/".toList, [], " ".toList, "// d\n".toList] = (true, true) := by decide +kernel
+example := driver_domain_sound _ _ _ dom_example
 -- `a/ /b` is not (a `/` token directly followed by a comment start would be swallowed), nor is `1x` (number glued to a word)
 example : (Pyx.OalText.inDomain [nm "a", tk .DIV "/", nm "b"] [] [[], "//c\n".toList, []]).2 = false := by decide +kernel
 example : (Pyx.OalText.inDomain [tk .NUMBER "1", nm "x"] [] [[], []]).2 = false := by decide +kernel
@@ -556,5 +573,9 @@ theorem layout_irrelevant_sem (sep0 : List Char) (units : List (Pyx.OalLex.LexUn
     (Pyx.OalLex.lex (sep0 ++ Pyx.OalLex.renderT units)).map (fun t => (t.kind, t.lexeme)) =
       (units.map (fun p => p.1.toks)).flatten :=
   Pyx.OalLex.layout_irrelevant_sem sep0 units h0 h
+
+-- layout_irrelevant_tight applied to builder-A2's `x.y[1]=f(p:1)+2;` (no separator at all)
+example := layout_irrelevant_tight [] Pyx.OalLex.sampleTight .nil Pyx.OalLex.sampleTight_ok
+example := layout_irrelevant_sem [] Pyx.OalLex.sampleTight .nil (Pyx.OalLex.pair_sem _ Pyx.OalLex.sampleTight_ok)
 
 end PyxProps.C07
